@@ -3,6 +3,7 @@ package main
 // Calls: builtins, intrinsics, contracts, inlining.
 
 import (
+	"go/constant"
 	"fmt"
 	"go/token"
 	"go/types"
@@ -225,6 +226,35 @@ func (x *Exec) intrinsic(st *State, fr *Frame, full string, callee *ssa.Function
 		return intrRes{v: Val{K: KBool, T: sx("fp.isNaN", fpTerm(args[0], 64)), Typ: rt()}}, true
 	case "math.Inf":
 		bail("math.Inf not modelled")
+	case "fmt.Sprintf":
+		// Sprintf("%d<c>", n) with one integer operand: assumed to produce the canonical decimal digits of n
+		// followed by c (spec function sprintfD in trusted/stdlib.spec); every other format stays opaque
+		cc := in.Common()
+		fc, isC := cc.Args[0].(*ssa.Const)
+		if !isC || fc.Value == nil || fc.Value.Kind() != constant.String || len(cc.Args) != 2 {
+			return intrRes{}, false
+		}
+		f := constant.StringVal(fc.Value)
+		if len(f) != 3 || f[0] != '%' || f[1] != 'd' || x.P.specs.SpecFns["sprintfD"] == nil {
+			return intrRes{}, false
+		}
+		op := variadicOperand(cc.Args[1], 0)
+		if op == nil {
+			return intrRes{}, false
+		}
+		ov := x.get(st, fr, op)
+		if ov.K != KInt {
+			return intrRes{}, false
+		}
+		res := x.freshVal(st, "sprintf", rt())
+		e, err := parseExpr("v >= 0 ==> sprintfD(r, v, c)")
+		if err != nil {
+			bail("internal: %v", err)
+		}
+		env := &Env{st: st, vars: map[string]Val{"r": res, "v": specInt(ov.T), "c": specInt(fmt.Sprint(int(f[2])))}, pkg: ""}
+		st.assume(x.evalSpec(e, env).T)
+		x.usedExt["fmt.Sprintf(\"%d<c>\") assumed to print canonical decimal digits (sprintfD)"] = true
+		return intrRes{v: res}, true
 	case "fmt.Errorf", "errors.New":
 		n := x.freshName("err")
 		st.declare(n, "Int")
@@ -990,4 +1020,38 @@ func (x *Exec) rowsTarget(pkg string, m *Expr) (key, sort string, el types.Type)
 	}
 	ss := x.P.ss
 	return ss.heapKey(t, true), ss.heapSort(t, true), t
+}
+
+// variadicOperand finds the i-th operand packed into a variadic []interface{} argument (the SSA shape
+// new [n]interface{}; &t[i]; make interface <- v; store; slice).
+func variadicOperand(arg ssa.Value, i int) ssa.Value {
+	sl, ok := arg.(*ssa.Slice)
+	if !ok {
+		return nil
+	}
+	al, ok := sl.X.(*ssa.Alloc)
+	if !ok || al.Referrers() == nil {
+		return nil
+	}
+	for _, r := range *al.Referrers() {
+		ia, ok := r.(*ssa.IndexAddr)
+		if !ok || ia.Referrers() == nil {
+			continue
+		}
+		c, ok := ia.Index.(*ssa.Const)
+		if !ok || c.Value == nil {
+			continue
+		}
+		if n, exact := constant.Int64Val(c.Value); !exact || int(n) != i {
+			continue
+		}
+		for _, u := range *ia.Referrers() {
+			if st, ok := u.(*ssa.Store); ok && st.Addr == ia {
+				if mi, ok := st.Val.(*ssa.MakeInterface); ok {
+					return mi.X
+				}
+			}
+		}
+	}
+	return nil
 }
